@@ -72,6 +72,20 @@ def _ground_subterms(t, acc, depth=0, _seen=None):
     return acc
 
 
+def _term_size(t, cap=400):
+    """Number of distinct sub-terms (DAG size), capped: a cheap measure that never prints the term."""
+    seen, stack = set(), [t]
+    while stack and len(seen) < cap:
+        x = stack.pop()
+        i = x.get_id()
+        if i in seen:
+            continue
+        seen.add(i)
+        if z3.is_app(x):
+            stack.extend(x.children())
+    return len(seen)
+
+
 def to_smt2_inst(ob, cap=10):
     """One-shot instantiation: the goal's universal variables are skolemised and every universally quantified
     hypothesis is instantiated with the skolem constants and the ground terms of matching sort that occur in
@@ -107,7 +121,7 @@ def to_smt2_inst(ob, cap=10):
             pref = list(goal_terms.get(sn, {}).values())
             rest = [t for k, t in cands.get(sn, {}).items() if k not in goal_terms.get(sn, {})]
             # smallest terms first: skolems, constants and short applications are the useful instances
-            pool = sorted(pref, key=lambda t: len(str(t)))[:cap] + sorted(rest, key=lambda t: len(str(t)))[: max(0, cap - len(pref))]
+            pool = sorted(pref, key=_term_size)[:cap] + sorted(rest, key=_term_size)[: max(0, cap - len(pref))]
             pools.append(pool)
         if any(not p for p in pools) or n > 2:
             continue
